@@ -150,7 +150,7 @@ def run_shard(sh):
     col = Collector(ID)
     tier = sh["tier"]
     backend = "migen" if os.environ.get("VERIF_SIM") == "migen" else "fast"
-    ncases = (50 if tier == "quick" else 500)
+    ncases = (40 if tier == "quick" else 500)
     widths = draw_examples(width_strategy(), len(sh["cfgs"]), sh["seed"])
     diffed = set()
     violation = None
